@@ -476,7 +476,7 @@ def rule_i10(repo):
     term themselves - everything `get_svars()` lists, possibly filtered - and not over a table that keeps one of them per
     name: with ?x :: ?'a and ?x :: ?'b in one term only one annotation would be matched, both occurrences replaced, and the
     result is ill-typed."""
-    res = RuleResult('C03.I10', 'the types of all schematic variables that a substitution replaces are matched, not one per name', floor=4)
+    res = RuleResult('C03.I10', 'the types of all schematic variables that a substitution replaces are matched, not one per name', floor=2)
     from ..flow import flow_of
 
     def all_of_them(e, target):
@@ -527,10 +527,24 @@ def rule_i10(repo):
                     if loops:
                         # the innermost loop over that name around the call
                         it = flow.inline(min(loops, key=lambda l: (l.end_lineno - l.lineno)).iter)
-                        if all_of_them(it, subj.id):
+                        its = [it]
+                        if isinstance(it, ast.Name) and it.id in f.params():
+                            # the loop stands in a helper that is handed the sequence: what its callers hand over
+                            idx = f.params().index(it.id)
+                            off = 1 if (f.params() and f.params()[0] == 'self' and f.parent is None) else 0
+                            its = []
+                            for g in m.all_funcs:
+                                gflow = None
+                                for cc in ast.walk(g.node):
+                                    if isinstance(cc, ast.Call) and ((isinstance(cc.func, ast.Name) and cc.func.id == f.name) or
+                                                                     (isinstance(cc.func, ast.Attribute) and cc.func.attr == f.name)) and len(cc.args) > idx - off:
+                                        gflow = gflow or flow_of(g.node)
+                                        its.append(gflow.inline(cc.args[idx - off]))
+                        if its and all(all_of_them(x, subj.id) for x in its):
                             verdict = True
-                        elif by_name(it) is not None:
-                            verdict, why = False, src(by_name(it), 60)
+                        elif any(by_name(x) is not None for x in its):
+                            bn = [by_name(x) for x in its if by_name(x) is not None][0]
+                            verdict, why = False, src(bn, 60)
                 elif isinstance(subj, ast.Subscript):
                     tb = by_name(subj.value)
                     if tb is not None:
